@@ -1,7 +1,6 @@
 import Geo.Props.C11
-open Geo
-#print axioms T11_closed_form_line
-#print axioms T11_closed_form_from_point
-#print axioms T11_harmonic_construction
-#print axioms T11_symmetries
-#print axioms T11_harmonic_param
+#print axioms Geo.T11_closed_form_line
+#print axioms Geo.T11_closed_form_from_point
+#print axioms Geo.T11_harmonic_construction
+#print axioms Geo.T11_symmetries
+#print axioms Geo.T11_harmonic_param
